@@ -149,7 +149,7 @@ def _gname(entry, i, decl_word, prev_word=""):
 
 def _program_tg(entry, kind, tg):
     """the numthreads the generated program gives the stage (harness/src/c05.rs render)"""
-    if entry == "TASKMESH" and kind == "Mesh":
+    if entry.split("+")[0] == "TASKMESH" and kind == "Mesh":
         return (32, 1, 1)
     return tg
 
